@@ -468,6 +468,34 @@ def processConc (h : Hist) (b : Block) (otoks : List String) : Hist :=
           let outsOk := (order.zip steps).all fun (x : ((Nat × Option Req) × String) × (IEv × List Delivery × Outcome)) => outcomeTok x.2.2.2 == x.1.2
           let ms := sortNat (srv'.sessions.map fun (x : Session) => x.id)
           if outsOk && ms == b.sessions && srv'.gauge == b.gauge && (ghostDiff srv' b.ghost).isNone then some (srv', steps) else none
+    -- C05 under concurrency: a refused delete request removes nothing - an action or an asset instance whose request
+    -- was answered with success within the block is in the module's state afterwards, unless a delete request or a
+    -- departure of the block was not refused
+    let refusedDeletes := tasks.filterMap fun (t : Nat × Option Req) =>
+      match t.2 with
+      | some (.entityDelete rid _ eid) => if (inboxOf t.1 b.ds).any (fun (o : Out) => match o with | .error r _ => r == rid | _ => false) then some eid else none
+      | _ => none
+    let onlyRefused := tasks.all fun (t : Nat × Option Req) =>
+      match t.2 with
+      | some (.entityDelete rid _ _) => (inboxOf t.1 b.ds).any (fun (o : Out) => match o with | .error r _ => r == rid | _ => false)
+      | some (.join ..) | none => false
+      | _ => true
+    let held : List ((Nat × Nat) × List Nat) := b.ghost.filterMap fun (g : Nat × List String) =>
+      match parseAll out g.2 with
+      | some (.vikjaState a) => some ((g.1, 0), a.map (·.eid))
+      | some (.odalState a) => some ((g.1, 1), a.map (·.eid))
+      | _ => none
+    let sidOf (c : Nat) : Nat := ((h.srv.locate c).map fun x => x.1.id).getD 0
+    let lost := tasks.filterMap fun (t : Nat × Option Req) =>
+      match t.2 with
+      | some (.action rid _ (some a)) =>
+        if refusedDeletes.contains a.eid && (inboxOf t.1 b.ds).contains (.actionResp rid) && !(held.any fun x => x.1 == (sidOf t.1, 0) && x.2.contains a.eid) then some s!"the action of entity {a.eid} (request {rid} of connection {t.1}, answered with success)" else none
+      | some (.assetAdd rid _ _ eid) =>
+        if refusedDeletes.contains eid && (inboxOf t.1 b.ds).any (fun (o : Out) => match o with | .assetAddResp r _ => r == rid | _ => false) && !(held.any fun x => x.1 == (sidOf t.1, 1) && x.2.contains eid) then some s!"the asset instance of entity {eid} (request {rid} of connection {t.1}, answered with success)" else none
+      | _ => none
+    let h := if onlyRefused && !lost.isEmpty then
+      { h with concViol := h.concViol.push ("C05", "refused-delete-removed-an-attachment", flatS s!"{" ".intercalate b.ev} :: every delete request of the block was refused, and the module state no longer holds {lost}") }
+      else h
     -- C12 under concurrency: a component is added at most once per (type, entity) - whatever else the block is judged to be
     let addsOk := tasks.filterMap fun (t : Nat × Option Req) =>
       match t.2 with
